@@ -246,7 +246,7 @@ impl SendChannel {
 //@mutant htlc_announced_although_no_commitment_can_be_generated
     if need_holding_cell { force_holding_cell = true; }
 //@with
-    if need_holding_cell && false { force_holding_cell = true; }
+    if need_holding_cell { force_holding_cell = force_holding_cell; }
 //@mutant next_htlc_id_not_advanced
     self.context.next_holder_htlc_id += 1;
 //@with
